@@ -72,6 +72,7 @@ Consume(e) ==
      /\ ClientSend(e.k, e.c, e.kind) /\ UNCHANGED portOf
   \/ /\ e.ev = "client_finish" /\ ClientFinish(e.k) /\ Maps
   \/ /\ e.ev = "client_disconnect" /\ ClientDisconnect(e.c) /\ Maps
+  \/ /\ e.ev = "client_reset" /\ ClientReset(e.k) /\ Maps
   \/ /\ e.ev = "req_start" /\ KnownNonce(e.n) /\ KnownPort(e.port)
      /\ rq[ReqOfNonce(e.n)].conn = ConnOfPort(e.port)   \* C09: the request's own peer
      /\ ReqStart(ReqOfNonce(e.n), e.id) /\ Maps
